@@ -155,6 +155,7 @@ class Run:
             known_findings_reported=sorted(seen_known),
             violations=[dict(key=f['key'], file=f['file'], line=f['line'], what=f['what']) for f in new],
             undecided=[n for n in self.notes if n.startswith('UNDECIDED')][:50],
+            renamings_undone=_renamings(),
             exhaustive=True,
             trusted_base=['Cython %s parser' % _cyver(), 'CPython ast', '/verif/sa analyses and frozen tables'],
         )
@@ -172,6 +173,14 @@ class Run:
             print('  %-10s subjects=%-4d obligations=%-4d discharged=%-4d known=%d violations=%d undecided=%d' % (
                 rule, r['subjects'], r['obligations'], r['discharged'], r['known'], r['violations'], r['undecided']))
         return 1 if new else 0
+
+
+def _renamings():
+    try:
+        from . import alpha
+        return ['%s: %s' % (k, '; '.join(v)) for k, v in sorted(alpha.UNDONE.items())][:60]
+    except Exception:
+        return []
 
 
 def _cyver():
